@@ -102,11 +102,16 @@ def parameter_info(param_list: Iterable[Parameter], quoted_names: bool = False) 
                 f"{q}{param.short_name}{q}: table struct; key = '{param.table_key.short_name}'; choices:\n"
             )
             for tr in param.table_key.table.table_rows:
+                if tr.structure is None:
+                    # the row references a simple data object
+                    # instead of a structure (or nothing at all)
+                    dop_name = tr.dop.short_name if tr.dop is not None else None
+                    of.write(f"  ('{tr.short_name}', <value of DOP '{dop_name}'>),\n")
+                    continue
+
                 of.write(f"  ('{tr.short_name}',\n")
                 of.write(f"   {{\n")
-                of.write(
-                    textwrap.indent(
-                        parameter_info(odxrequire(tr.structure).parameters, True), "    "))
+                of.write(textwrap.indent(parameter_info(tr.structure.parameters, True), "    "))
                 of.write(f"   }}),\n")
 
             continue
